@@ -604,7 +604,9 @@ Choose(int cur)
 bool
 ChooseSpurious()
 {
-  if (G.cfg.dev_bound <= 0) return false;
+  // no choice point at all once the deviation budget is used up: this must not depend on whether a
+  // prefix is being replayed, otherwise the kinds of the recorded points would shift
+  if (G.cfg.dev_bound <= 0 || G.devs >= G.cfg.dev_bound) return false;
   size_t idx = G.trace.size();
   int c = 0;
   if (idx < G.prefix.size()) {
@@ -614,12 +616,6 @@ ChooseSpurious()
       RecordViolation("INTERNAL", "DIVERGENCE", "replayed deviation choice out of range", true);
       FatalStop();
     }
-  } else if (G.devs >= G.cfg.dev_bound) {
-    return false;  // no choice point at all beyond the budget (keeps traces short)
-  }
-  if (idx < G.prefix.size() && G.devs >= G.cfg.dev_bound && c == 1) {
-    // cannot happen for prefixes produced by the explorer
-    G.diverged = true;
   }
   ChoicePoint cp{};
   cp.enabled = 0b11;
